@@ -378,6 +378,9 @@ def _alternatives(body):
     return [a.strip() for a in alts]
 
 
+EXPR_SPECIAL_SHA256 = "f85faf34dfa9293889b4fd3819e0837fec22417590e56700f8a151073b422431"
+
+
 def grammar(repo):
     src = open(os.path.join(repo, "src", "parser.y")).read()
     # precedence block
@@ -403,6 +406,11 @@ def grammar(repo):
     if paren != "'(' Expression ')'":
         # the production must have NO action: a callback (or a %prec) here changes what redundant parentheses do
         raise TranslateError("parser.y: parenthesis production is not the action-free `'(' Expression ')'`: %r" % paren)
+    # the non-binary alternatives (atoms, calls, indexing, prefix/postfix, ?:, quantifiers ...) are hand-modelled in
+    # Model/C09Ops.lean: any change to their shape or callbacks breaks the tie
+    import hashlib
+    if hashlib.sha256("\n".join(special).encode()).hexdigest() != EXPR_SPECIAL_SHA256:
+        raise TranslateError("parser.y: the non-binary alternatives of `Expression` changed (%d alternatives): %r ..." % (len(special), special[:3]))
     imply = [s for s in special if s.startswith("Expression T_KW_IMPLY")]
     if imply != ["Expression T_KW_IMPLY { CALL(@1, @1, expr_unary(NOT)); } Expression { CALL(@3, @3, expr_binary(OR)); }"]:
         raise TranslateError("parser.y: imply production changed: %r" % imply)
